@@ -206,7 +206,7 @@ func main() {
 			sem <- true
 			defer func() { <-sem }()
 			c := &Config{MaxSteps: 4000000, MaxBlockVisits: 400, MaxEnum: 8, MaxPaths: 20000, Workers: nw, TimeoutMs: 30000,
-				InjectiveSprintf: true, Solver: *solver, LogSMT: *logSMT, Known: known, Tier: *tier, Seed: seed, DecodeMaxLen: 2}
+				InjectiveSprintf: true, Solver: *solver, LogSMT: *logSMT, Known: known, Tier: *tier, Seed: seed, DecodeMaxLen: 2, ParamMaxLen: 2}
 			if cc.MaxPaths > 0 {
 				c.MaxPaths = cc.MaxPaths
 			}
